@@ -39,7 +39,8 @@ Definition CARD : string := "urn:ietf:params:xml:ns:carddav".
     - [LInt neg] / [LBad]: encoding/xml's int64 conversion, [neg] = the number is negative;
     - [LGood] / [LBad]: http.ParseTime, ETag.UnmarshalText, the iCalendar or vCard decoder;
     - [LPanic]: the iCalendar or vCard decoder panics on this text (go-ical does on some
-      malformed content lines; known finding ical_decoder_panic);
+      malformed content lines; since the repair c4d1d95 the caldav client turns that into an
+      error, the carddav client calls go-vcard unguarded);
     - [LNone]: no codec applies to this element. *)
 Inductive leaf := LNone | LBad | LEmpty | LCode (c : N) | LPath (p : string) | LInt (neg : bool) | LGood | LPanic.
 
@@ -468,8 +469,9 @@ Definition n_card_home : qname := (CARD, "addressbook-home-set").
 
 (** decodeCalendarObjectList / decodeAddressList: one iteration.  The data property is a
     []byte (never fails to decode); the iCalendar / vCard decoder runs last, its outcome
-    is the annotation of the data element. *)
-Definition object_item (n_data : qname) (r : response) : cres (option string) :=
+    is the annotation of the data element.  [guarded]: the decoder is called through
+    decodeCalendar, which recovers from its panic (caldav; carddav calls go-vcard directly). *)
+Definition object_item (guarded : bool) (n_data : qname) (r : response) : cres (option string) :=
   match resp_path r with
   | (_, Some e) => CErr e
   | (path, None) =>
@@ -477,12 +479,16 @@ Definition object_item (n_data : qname) (r : response) : cres (option string) :=
     cdo _ <- tolerate (decode_prop r n_getlastmodified dec_good) tt;
     cdo _ <- tolerate (decode_prop r n_getetag dec_good) tt;
     cdo _ <- tolerate (decode_prop r n_getcontentlength dec_int) false;
-    match parsed with LGood => COk (Some path) | LPanic => CPanic | _ => CErr EOther end
+    match parsed with
+    | LGood => COk (Some path)
+    | LPanic => if guarded then CErr EOther else CPanic
+    | _ => CErr EOther
+    end
   end.
 
-Definition report_objects (n_data : qname) (s : script) : cres value :=
+Definition report_objects (guarded : bool) (n_data : qname) (s : script) : cres value :=
   cdo ms <- do_multistatus s;
-  cdo l <- collect (object_item n_data) ms;
+  cdo l <- collect (object_item guarded n_data) ms;
   COk (VPaths l).
 
 (** populateCalendarObject / populateAddressObject: (ok?, path) *)
@@ -493,13 +499,13 @@ Definition populate_path (r : hresp) (dflt : string) : string :=
 
 (** GetCalendarObject / GetAddressObject.  [path] is the path of the request URL
     (resp.Request.URL.Path); a nil Response.Request is a nil dereference. *)
-Definition get_object (mime : string) (parsed : hresp -> leaf) (path : string) (s : script) : cres value :=
+Definition get_object (guarded : bool) (mime : string) (parsed : hresp -> leaf) (path : string) (s : script) : cres value :=
   cdo r <- client_do s;
   if h_ct_err r then CErr EOther
   else if negb (String.eqb (lower (h_ct r)) mime) then CErr EOther
   else
     match parsed r with
-    | LPanic => CPanic
+    | LPanic => if guarded then CErr EOther else CPanic
     | LGood =>
       if negb (h_reqset r) then CPanic
       else if populate_ok r then COk (VPaths [populate_path r path]) else CErr EOther
@@ -555,14 +561,14 @@ Definition run (m : meth) (path : string) (s : script) : cres value :=
   | MOpen | MCreate | MRemoveAll | MMkdir | MCopy | MMove => plain s
   | MFindCalendarHomeSet => find_homeset n_cal_home s
   | MFindCalendars => find_collections n_calendar n_cal_desc n_cal_size n_cal_supp dec_compset s
-  | MQueryCalendar | MMultiGetCalendar => report_objects n_cal_data s
-  | MGetCalendarObject => get_object "text/calendar" h_ical path s
+  | MQueryCalendar | MMultiGetCalendar => report_objects true n_cal_data s
+  | MGetCalendarObject => get_object true "text/calendar" h_ical path s
   | MPutCalendarObject => put_object path s
   | MHasSupport => has_support s
   | MFindAddressBookHomeSet => find_homeset n_card_home s
   | MFindAddressBooks => find_collections n_addressbook n_card_desc n_card_size n_card_supp dec_addrdata s
-  | MQueryAddressBook | MMultiGetAddressBook => report_objects n_card_data s
-  | MGetAddressObject => get_object "text/vcard" h_vcard path s
+  | MQueryAddressBook | MMultiGetAddressBook => report_objects false n_card_data s
+  | MGetAddressObject => get_object false "text/vcard" h_vcard path s
   | MPutAddressObject => put_object path s
   | MSyncCollection => sync_collection path s
   end.
@@ -571,23 +577,25 @@ Definition run (m : meth) (path : string) (s : script) : cres value :=
 Definition well_formed (s : script) : bool :=
   match s with Terr => true | Resp r => h_reqset r end.
 
-(** The third-party iCalendar / vCard decoders return (a value or an error) on the texts
-    this response hands them: on the body, and on every property value of its multi-status.
-    Its negation is the selector of the known finding ical_decoder_panic. *)
+(** The third-party vCard decoder, which the carddav client calls unguarded, returns (a
+    value or an error) on the texts this response hands it: on the body, and on every
+    address-data value of its multi-status.  (No panic of go-vcard has been observed; the
+    iCalendar decoder does panic, and the caldav client recovers from it.) *)
 Definition is_lpanic (a : leaf) : bool := match a with LPanic => true | _ => false end.
-Definition ms_panic_free (ms : list response) : bool :=
-  forallb (fun r => forallb (fun ps => forallb (fun raw => negb (is_lpanic (xann raw))) (ps_props ps)) (r_pss r)) ms.
-Definition decoders_total (s : script) : bool :=
+Definition ms_panic_free (nd : qname) (ms : list response) : bool :=
+  forallb (fun r => forallb (fun ps => forallb (fun raw =>
+    negb (qeq (xname raw) nd && is_lpanic (xann raw))) (ps_props ps)) (r_pss r)) ms.
+Definition vcard_decoder_total (s : script) : bool :=
   match s with
   | Terr => true
   | Resp r =>
-    negb (is_lpanic (h_ical r)) && negb (is_lpanic (h_vcard r)) &&
+    negb (is_lpanic (h_vcard r)) &&
     match h_xml r with
     | XSyn => true
-    | XTree t => match dec_multistatus t with Some ms => ms_panic_free ms | None => true end
+    | XTree t => match dec_multistatus t with Some ms => ms_panic_free n_card_data ms | None => true end
     end
   end.
-Definition decoder_panics (s : script) : bool := negb (decoders_total s).
+Definition vcard_decoder_panics (s : script) : bool := negb (vcard_decoder_total s).
 
 (** * Specification (from the property text, not from the code)
 
